@@ -363,6 +363,11 @@ def check(case) -> Result:
         return r.fail(f"change_extension_functions_to_calls raised {type(e).__name__}: {e} on {case['src']}")
     if not isinstance(got, ast.AST):
         return r.fail(f"returned {got!r}")
+    try:
+        ast.dump(got)
+    except RecursionError:
+        # a node (or list of nodes) that contains itself: the result is not a tree any more
+        return r.fail(f"the rewritten query is not a finite tree (a node list contains itself): input {case['src']}")
     if ast.dump(got) != ast.dump(ref):
         return r.fail(f"structure differs from Op(seq, args...) reference: input {case['src']} -> {_unp(got)}; expected {_unp(ref)}")
     left = _method_ops(got, names)
